@@ -50,22 +50,23 @@ def record(cid, chart, target, track_kind, form, s, e):
                 tr = t
     bpm = chart.sync_track.bpm_events
     notes = [limbs(td_us(ev.timestamp)) for ev in tr.note_events] if tr is not None else []
+    ends = [limbs(td_us(ev.end_timestamp)) for ev in tr.note_events] if tr is not None else []
     if form in ("tick", "tick-tick"):
         S = td_us(bpm.timestamp_at_tick_no_optimize_return(s))
     elif form in ("time", "time-time"):
         S = s
     else:
         S = 0
+    eomit = False
     if form == "tick-tick":
         E = td_us(bpm.timestamp_at_tick_no_optimize_return(e))
     elif form == "time-time":
         E = e
     else:
-        last = tr.last_note_end_timestamp if tr is not None else None
-        E = td_us(last) if last is not None else 0
+        eomit, E = True, 0       # TLC takes the maximum of the notes' end times
     raised, v = call(chart, inst, diff, form, s, e)
     num, den = (float(v).as_integer_ratio() if v is not None else (0, 1))
-    return {"id": cid, "props": ["C16"], "track": track_kind, "form": form, "notes": notes, "S": limbs(S), "E": limbs(E),
+    return {"id": cid, "props": ["C16"], "track": track_kind, "form": form, "notes": notes, "ends": ends, "eomit": eomit, "S": limbs(S), "E": limbs(E),
             "raised": raised, "num": limbs(num), "den": limbs(den), "args": [s, e]}
 
 
@@ -149,7 +150,7 @@ def run(ctx):
     ctx.assumptions += [
         "the five overload forms of the public signature are exercised (mixed tick / timestamp bounds are outside the typed interface)",
         "the rate must be within relative 2^-50 of count * 10^6 / length-in-microseconds (two float roundings)",
-        "a tick bound is the un-hinted query at that tick and an omitted end is the track's last_note_end_timestamp, both as observed (their own correctness is C01 / C03)",
+        "a tick bound is the un-hinted query at that tick as observed (its own correctness is C01); an omitted end is the maximum of the notes' observed end times, computed by TLC",
     ]
 
 
